@@ -191,6 +191,7 @@ type World struct {
 	drivers []*scriptDriver
 
 	portSym map[uint16]string
+	nConns  int
 
 	finished   bool
 	FailedNew  []string
@@ -308,11 +309,18 @@ func (w *World) snapshot() []*op {
 	}
 	sort.SliceStable(ops, func(i, j int) bool {
 		a, b := ops[i], ops[j]
-		if (a.actor == "") != (b.actor == "") {
-			return a.actor != "" // named first
+		an, bn := a.actor, b.actor
+		if an == "" && a.kind == opNew {
+			an = a.key // construction by a registered goroutine: ordered by its name
 		}
-		if a.actor != b.actor {
-			return a.actor < b.actor
+		if bn == "" && b.kind == opNew {
+			bn = b.key
+		}
+		if (an == "") != (bn == "") {
+			return an != "" // named first
+		}
+		if an != bn {
+			return an < bn
 		}
 		if a.kind != b.kind {
 			return a.kind < b.kind
